@@ -480,6 +480,9 @@ size_t derTSIZEDec(size_t* val, const octet der[], size_t count, u32 tag)
 	if (l_count == SIZE_MAX || len > O_PER_S + 1)
 		return SIZE_MAX;
 	der += l_count, count -= l_count;
+	// пустое значение? значение выходит за пределы кода?
+	if (len < 1 || len > count)
+		return SIZE_MAX;
 	// декодировать V
 	{
 		register size_t v = 0;
